@@ -85,7 +85,7 @@ theorem valid_complete {U D : List BlockAbs} {s : State} (hwf : WF U) (hDU : ∀
     have hpinv : (s.status b.parent).knownInvalid = true → False := by
       intro hk
       exact iw_not_valid hwf hDU hi.c (hi.c.fs.kIW _ hk) w' hp
-    rcases hi.deliv b hb hpre with hd | hd | hd | hd
+    rcases hi.deliv b hb hpre with hd | hd | hd | hd | hd
     · obtain ⟨n, hl⟩ := hi.c.dIdx _ hd
       obtain ⟨hnU, q, hq, hw, _⟩ := idxOK_node hi.c.idx hl hb0
       have hnb : n.blk = b := wf_eq hwf hnU hbU (lookup_hash hl)
@@ -102,6 +102,8 @@ theorem valid_complete {U D : List BlockAbs} {s : State} (hwf : WF U) (hDU : ∀
       · cases hk
     · exact absurd hd (fun hk => hpinv hk)
     · rw [hev] at hd; cases hd
+    · exfalso
+      exact iw_not_valid hwf hDU hi.c (hi.c.fs.kIW _ hd) (w' + b.work) (ValidChain.step hb hok hp)
 
 /-- the tip of a state satisfying the invariant (no orphan ever evicted) is a best tip for `D` -/
 theorem inv_isBest {U D : List BlockAbs} {s : State} (hwf : WF U) (hDU : ∀ x ∈ D, x ∈ U)
